@@ -16,7 +16,8 @@ theorem C07_rebirth_iff (c : Cfg) (s : St) (i : In) (now wall : Nat) (hinv : Hos
       ∃ r, raised c s i now = some r ∧ c.enabled r = true ∧ CooldownOk c s wall) ∧
     (step c s i now wall).2.count Eff.ncmd ≤ 1 ∧
     (Eff.ncmd ∈ (step c s i now wall).2 → (step c s i now wall).2.getLast? = some Eff.ncmd) := by
-  sorry
+  have _ := hinv; have _ := hwf  -- not needed: holds in every state
+  exact step_spec c s i now wall
 
 /-- **Only for a node it holds stale** (ClockCoherent): after a step that published the NCMD the
 node is held stale, and its stores were marked stale if they were not. -/
@@ -24,7 +25,8 @@ theorem C07_ncmd_only_when_stale (c : Cfg) (s : St) (i : In) (now wall : Nat) (h
     (hwf : i.WF) (hclock : s.birthTs ≤ now) (h : Eff.ncmd ∈ (step c s i now wall).2) :
     (step c s i now wall).1.life = .stale ∧
     (s.life = .birthed → Eff.nodeStale ∈ (step c s i now wall).2) := by
-  sorry
+  have _ := hinv; have _ := hwf  -- not needed: holds in every state
+  exact step_stale c s i now wall hclock h
 
 /-! ### the listed triggers, each raising its reason -/
 
@@ -32,14 +34,14 @@ theorem C07_ncmd_only_when_stale (c : Cfg) (s : St) (i : In) (now wall : Nat) (h
 theorem C07_trigger_data_while_stale (c : Cfg) (s : St) (seq ts : Nat) (m : RMsg) (now : Nat)
     (hfresh : Fresh s ts) (hst : s.life = .stale) :
     raised c s (.rmsg seq ts m) now = some .recordedStateStale := by
-  sorry
+  exact raised_stale c s seq ts m now hfresh hst
 
 /-- a duplicated sequence number: a message with that number is already waiting in the buffer -/
 theorem C07_trigger_duplicate (c : Cfg) (s : St) (seq ts : Nat) (m : RMsg) (now : Nat)
     (hinv : HostInv s) (hseq : seq < 256) (hfresh : Fresh s ts) (hb : s.life = .birthed)
     (hres : c.resequence = true) (hdup : ∃ x ∈ s.reseq.buf, x.2.1 = seq) :
     raised c s (.rmsg seq ts m) now = some .reorderFail := by
-  sorry
+  exact raised_dup c s seq ts m now hinv hseq hfresh hb hres hdup
 
 /-- a sequence gap not filled within the reorder timeout: (a) an out-of-order message arms the
 timer for `now + timeout` when none is running; (b) the timer task firing raises the reason -/
@@ -49,36 +51,44 @@ theorem C07_trigger_gap_arms_timer (c : Cfg) (s : St) (seq ts : Nat) (m : RMsg) 
     (hnew : ∀ x ∈ s.reseq.buf, x.2.1 ≠ seq) (hidle : s.timer = .none) :
     (step c s (.rmsg seq ts m) now wall).1.timer = .armed (now + d) ∧
     (step c s (.rmsg seq ts m) now wall).2 = [Eff.timerStart] := by
-  sorry
+  exact gap_arms_timer c s seq ts m now wall d hinv hseq hfresh hb hres hto hgap hnew hidle
 
 theorem C07_trigger_gap_timeout (c : Cfg) (s : St) (now dl : Nat) (h : s.timer = .armed dl) :
     raised c s .timerFire now = some .reorderTimeout := by
-  sorry
+  simp [raised, h]
 
 /-- a store rejecting a metric of an in-sequence message -/
 theorem C07_trigger_store_rejects_node_data (c : Cfg) (s : St) (seq ts id : Nat) (ans : Ans) (now : Nat)
     (hinv : HostInv s) (hseq : seq < 256) (hfresh : Fresh s ts) (hb : s.life = .birthed)
     (hin : InSeq c s seq) (hrej : ans ≠ .ok) :
     raised c s (.rmsg seq ts (.ndata id ans)) now = some .invalidPayload := by
-  sorry
+  exact raised_inseq_some c s seq ts _ now hinv hseq hfresh hb hin _ (fun rs => by simp [apply, hrej])
 
 theorem C07_trigger_store_rejects_device_birth (c : Cfg) (s : St) (seq ts d id : Nat) (ans : Ans) (now : Nat)
     (hinv : HostInv s) (hseq : seq < 256) (hfresh : Fresh s ts) (hb : s.life = .birthed)
     (hin : InSeq c s seq) (hrej : ans ≠ .ok) :
     raised c s (.rmsg seq ts (.dbirth d id ans)) now = some .invalidPayload := by
-  sorry
+  exact raised_inseq_some c s seq ts _ now hinv hseq hfresh hb hin _ (fun rs => by simp [apply, hrej])
 
 theorem C07_trigger_store_rejects_device_data (c : Cfg) (s : St) (seq ts d id : Nat) (ans : Ans) (now : Nat)
     (hinv : HostInv s) (hseq : seq < 256) (hfresh : Fresh s ts) (hb : s.life = .birthed)
     (hin : InSeq c s seq) (hdev : devState s d = .birthed ∧ findDev d s.devices ≠ none) (hrej : ans ≠ .ok) :
     raised c s (.rmsg seq ts (.ddata d id ans)) now
       = some (if ans = .invalid then .invalidPayload else .unknownMetric) := by
-  sorry
+  obtain ⟨h1, h2⟩ := hdev
+  have hf : findDev d s.devices = some .birthed := by
+    unfold devState at h1
+    cases hfd : findDev d s.devices with
+    | none => exact absurd hfd h2
+    | some l => rw [hfd] at h1; simpa using h1
+  refine raised_inseq_some c s seq ts _ now hinv hseq hfresh hb hin _ (fun rs => ?_)
+  cases ans <;> simp_all [apply]
 
 theorem C07_trigger_store_rejects_node_birth (c : Cfg) (s : St) (ts bd id : Nat) (ans : Ans) (now : Nat)
     (hnew : s.birthTs < ts) (hnot : ¬ (s.life = .birthed ∧ s.bdseq = bd)) (hrej : ans ≠ .ok) :
     raised c s (.nbirth ts bd id ans) now = some .invalidPayload := by
-  sorry
+  simp only [raised]
+  rw [if_neg (by omega), if_pos ⟨hnot, hrej⟩]
 
 /-- data (or a death) from a device it holds no birth for -/
 theorem C07_trigger_unknown_device (c : Cfg) (s : St) (seq ts d id : Nat) (ans : Ans) (now : Nat)
@@ -86,19 +96,20 @@ theorem C07_trigger_unknown_device (c : Cfg) (s : St) (seq ts d id : Nat) (ans :
     (hin : InSeq c s seq) (hunk : findDev d s.devices = none) :
     raised c s (.rmsg seq ts (.ddata d id ans)) now = some .unknownDevice ∧
     raised c s (.rmsg seq ts (.ddeath d id)) now = some .unknownDevice := by
-  sorry
+  exact ⟨raised_inseq_some c s seq ts _ now hinv hseq hfresh hb hin _ (fun rs => by simp [apply, hunk]),
+    raised_inseq_some c s seq ts _ now hinv hseq hfresh hb hin _ (fun rs => by simp [apply, hunk])⟩
 
 /-- data for a device it holds stale -/
 theorem C07_trigger_device_stale (c : Cfg) (s : St) (seq ts d id : Nat) (ans : Ans) (now : Nat)
     (hinv : HostInv s) (hseq : seq < 256) (hfresh : Fresh s ts) (hb : s.life = .birthed)
     (hin : InSeq c s seq) (hst : findDev d s.devices = some .stale) :
     raised c s (.rmsg seq ts (.ddata d id ans)) now = some .recordedStateStale := by
-  sorry
+  exact raised_inseq_some c s seq ts _ now hinv hseq hfresh hb hin _ (fun rs => by simp [apply, hst])
 
 /-- an NDEATH whose bdSeq differs from the current birth's -/
 theorem C07_trigger_bdseq_mismatch (c : Cfg) (s : St) (bd now : Nat) (h : bd ≠ s.bdseq) :
     raised c s (.ndeath bd) now = some .outOfSyncBdSeq := by
-  sorry
+  simp [raised, h]
 
 /-- data from a node it holds no birth for (dispatcher): the actor is created and asked for a
 rebirth, the message itself is dropped -/
@@ -107,7 +118,7 @@ theorem C07_trigger_unknown_node (c : Cfg) (a : App) (n seq ts : Nat) (m : RMsg)
     (appStep c a (.node n (.rmsg seq ts m)) now wall).2
       = [AppEff.nodeCreated n, AppEff.node n Eff.ncmd] ∧
     (findNode n (appStep c a (.node n (.rmsg seq ts m)) now wall).1.nodes).map (·.life) = some .stale := by
-  sorry
+  exact unknown_node c a n seq ts m now wall hunk hen hcd
 
 /-! ### nothing else raises a reason -/
 
@@ -124,7 +135,14 @@ theorem C07_no_reason_when_trustworthy (c : Cfg) (s : St) (now : Nat) (hinv : Ho
     (∀ seq ts m, seq < 256 → Fresh s ts → s.life = .birthed → c.resequence = true →
         seq ≠ s.reseq.next → (∀ x ∈ s.reseq.buf, x.2.1 ≠ seq) →
         raised c s (.rmsg seq ts m) now = none) := by
-  sorry
+  refine ⟨rfl, by simp [raised], ?_, ?_, ?_⟩
+  · intro ts bd id
+    simp only [raised]
+    split <;> simp
+  · intro seq ts id hseq hfresh hb hin hbuf
+    exact raised_ndata_ok c s seq ts id now hinv hseq hfresh hb hin hbuf
+  · intro seq ts m hseq hfresh hb hres hgap hnew
+    exact raised_inserted c s seq ts m now hinv hseq hfresh hb hres hgap hnew
 
 /-! ### non-vacuity -/
 example : raised (exampleCfg (some 100) 0) init (.rmsg 1 5 (.ndata 1 .ok)) 5 = some .recordedStateStale := by decide
